@@ -273,11 +273,12 @@ def parse_model_fault(ans):
 def run_fault(hist, pt, use_model, base):
     """Re-run the history with the fault `pt`; returns the observations (see FRun.execute_faulted) + the final
     trees + the verdicts of the oracles."""
-    from .c02_faults import FRun, dest_trees, INJ
+    from .c02_faults import FRun, dest_trees, INJ, QUEUE_RESET_STATUS
     cfg = cfg_from_dict(hist['cfg'])
     events, closing = hist['events'], hist['closing']
     fr = FRun(cfg, base, executed=set(hist['per_event']))
     res = {'pt': pt, 'i': hist['i']}
+    late_resets = 0
     try:
         obs = None
         for n, ev in enumerate(events + closing):
@@ -287,7 +288,20 @@ def run_fault(hist, pt, use_model, base):
                     res['unreached'] = True
                     return res
             else:
-                fr.execute(ev, n)
+                kind, info, _jobs = fr.execute(ev, n)
+                # the operator's part of the recovery, as the property allows it: whenever Bert-E reports the queues
+                # out of order AFTER the fault (not only in answer to the re-delivered event itself), the documented
+                # reset (rebuild_queues, delete_queues as a last resort) is run and the event delivered again
+                if n > pt['n'] and kind == 'job' and isinstance(info, dict) \
+                        and info.get('status') in QUEUE_RESET_STATUS and late_resets < 3:
+                    late_resets += 1
+                    if fr.w.job('rebuild_queues') != 'JobSuccess':
+                        fr.w.drain()
+                        fr.w.job('delete_queues')
+                    fr.w.drain()
+                    fr.settle_host()
+                    fr.execute(ev, n)
+        res['late_queue_resets'] = late_resets
         res['final_trees'] = dest_trees(fr.w)
     finally:
         fr.close()
@@ -576,6 +590,8 @@ def correspondence(ctx):
         res.count('immediate_same' if r['immediate_same'] else 'immediate_differs_(converges_later)')
         if r.get('timing_only'):
             res.count('final_differs_only_by_the_extra_evaluation_(equal_to_duplicate_delivery)')
+        if r.get('late_queue_resets'):
+            res.count('queue_reset_needed_later_in_the_history', r['late_queue_resets'])
         if not r['replayed_same_ops']:
             res.count('replay_not_deterministic')
         if any(k.startswith('D:') for k in r['kinds']):
